@@ -16,7 +16,7 @@ import (
 // count (N, Rows, Cols), which ignores the increment or stride.
 func RunExtent(conf core.Config) *core.Result {
 	res := core.NewResult("OVERLAP.extent")
-	res.Rules = append(res.Rules, "OVERLAP.extent: a storage offset (result of offset/offsetComplex) is compared only with zero or with the storage length len(x.Data) of an operand")
+	res.Rules = append(res.Rules, "OVERLAP.lattice: a storage offset is reduced by an increment or stride only with the remainder operator, never a bitwise one", "OVERLAP.extent: a storage offset (result of offset/offsetComplex) is compared only with zero or with the storage length len(x.Data) of an operand")
 	res.Configs = append(res.Configs, conf.String())
 	pkgs, err := core.Load(conf, "./mat")
 	if err != nil {
@@ -98,6 +98,18 @@ func RunExtent(conf core.Config) *core.Result {
 				}
 				switch be.Op {
 				case token.LSS, token.LEQ, token.GTR, token.GEQ:
+				case token.REM, token.AND, token.OR, token.XOR, token.AND_NOT, token.SHL, token.SHR:
+					// OVERLAP.lattice: whether an offset falls on the
+					// lattice of an increment is a remainder.
+					if isOff(be.X) {
+						res.Obligations++
+						res.Count("offset_lattice_tests", 1)
+						if be.Op != token.REM {
+							res.Add(core.Finding{Rule: "OVERLAP.lattice", Key: fmt.Sprintf("OVERLAP.lattice|%s|%s", name, be.Op), Pos: core.Pos(be.Pos()), Func: name,
+								Msg: fmt.Sprintf("%s combines a storage offset with %s by the bitwise operator %s: whether two equally strided views share elements depends on the remainder of the offset modulo the increment; the bit pattern rejects disjoint views (offset 2, increment 4) and accepts overlapping ones (offset 3, increment 3)", name, types.ExprString(be.Y), be.Op)})
+						}
+					}
+					return true
 				default:
 					return true
 				}
